@@ -343,9 +343,23 @@ def run_pair(concepts, case, spec):
     which = range(n_der)
     for k in which:
         x, y = D(*sx), D(*sy)
+        bystanders = []
+        if (k + case['i'] + case['j']) % 2 == 0:
+            # copies taken earlier, never edited, alive during everything that follows (the sweeps see them)
+            bystanders = [call(x.copy), call(y.copy)]
+            COL.count('unedited_earlier_copies_alive_during_the_derivation')
         name, thunk = derivations(D, x, y, rng)[k]
         res = call(thunk)
         if res is RAISED or not isinstance(res, D):
+            # the derivation was refused (conflicting cells, unknown names): the sources are edited
+            # afterwards - neither their earlier copies nor the other source may follow
+            for n_, target in enumerate((x, y)):
+                es = edits(target, rng)
+                call(es[(k * 5 + case['i'] + 3 * case['j'] + n_) % len(es)])
+                call(es[0])
+            with core.monitor_code():
+                sweep()
+            COL.count('sources_edited_after_a_refused_derivation')
             continue
         # involutions
         if name in ('transposed', '-', 'inverted', '~'):
